@@ -10,7 +10,7 @@
     scope-function calls are rewritten recursively, the [offdiag(...)] copy of an
     offdiagonal line is compiled from its own copy of the source expression. *)
 From Coq Require Import String List ZArith Bool Arith Ascii.
-From PV.DSL Require Import Syntax Target.
+From PV.DSL Require Import Syntax SyntaxAux Target.
 Import ListNotations.
 Open Scope string_scope.
 Open Scope list_scope.
@@ -165,9 +165,14 @@ Fixpoint cexpr (dg : bool) (e : expr) : texpr :=
       TCall f ((fix go (l : list arg) : list targ :=
                   match l with
                   | [] => []
-                  | ArgSeries s :: r => TASeries s :: go r
-                  | ArgExpr (Lit s) :: r => TASeries s :: go r
-                  | ArgExpr a :: r => TAExpr (cexpr dg a) :: go r
+                  | a :: r =>
+                      match arg_series a with
+                      | Some s => TASeries s
+                      | None => match a with
+                                | ArgExpr e' => TAExpr (cexpr dg e')
+                                | ArgSeries s => TASeries s
+                                end
+                      end :: go r
                   end) args)
   | IfFlag c a b => TIfExp c (cexpr dg a) (cexpr dg b)
   end.
